@@ -508,6 +508,11 @@ def execute(sc, sched: Choices, cls, cfg):
         else:
             mask_obj = mask
         fp_mask0 = fingerprints([owned_mask]) if owned_mask is not None else None
+        owned_times = None
+        if op["op"] == "ema_timed":
+            # the timestamps are a caller-owned buffer too (int64 views of them are taken inside)
+            owned_times = own_array(ops.build_times(ds, op), ["numpy", "numpy_strided", "pandas", "numpy_offset"][si % 4])
+        fp_times0 = fingerprints([owned_times]) if owned_times is not None else None
 
         def do_call(target):
             if kind == "fn":
@@ -523,7 +528,7 @@ def execute(sc, sched: Choices, cls, cfg):
                     values = np.concatenate([a, a[:1]])
                 elif fk == "bad_mask_len":
                     m = np.ones(n + 1, dtype=bool)
-            return ops.call_op(target, op, values, m, dso)
+            return ops.call_op(target, op, values, m, dso, times=None if owned_times is None else owned_times.obj)
 
         this_fault = fault if (fault is not None and fault_step == si) else None
         ctxr = new_ctx(this_fault)
@@ -540,6 +545,9 @@ def execute(sc, sched: Choices, cls, cfg):
             rec["violations"].append({"site": {"property": PROP, "check": "inputs_unchanged", "op": opname, "outcome": "input_mutated"}, "features": dict(feats_base, **extra), "expected": "codes buffer unchanged", "actual": "codes changed"})
         if owned_mask is not None and fingerprints([owned_mask]) != fp_mask0:
             rec["violations"].append({"site": {"property": PROP, "check": "inputs_unchanged", "op": opname, "outcome": "input_mutated"}, "features": dict(feats_base, **extra), "expected": "mask buffer unchanged", "actual": "mask changed"})
+        if owned_times is not None and fingerprints([owned_times]) != fp_times0:
+            rec["violations"].append({"site": {"property": PROP, "check": "inputs_unchanged", "op": opname, "outcome": "input_mutated"}, "features": dict(feats_base, **extra), "expected": "timestamps buffer unchanged", "actual": "timestamps changed"})
+            fp_times0 = fingerprints([owned_times])
         if inv0 is not None:
             try:
                 inv = c13._row_labels(gb)
@@ -558,6 +566,8 @@ def execute(sc, sched: Choices, cls, cfg):
                 rec["violations"].append({"site": {"property": PROP, "check": "no_write_through", "op": opname, "outcome": "write_through"}, "features": dict(feats_base, **extra), "expected": "mask buffer unchanged", "actual": "mask changed by editing the result"})
             if fingerprints([owned_codes]) != fp_codes0:
                 rec["violations"].append({"site": {"property": PROP, "check": "no_write_through", "op": opname, "outcome": "write_through"}, "features": dict(feats_base, **extra), "expected": "codes buffer unchanged", "actual": "codes changed by editing the result"})
+            if owned_times is not None and fingerprints([owned_times]) != fp_times0:
+                rec["violations"].append({"site": {"property": PROP, "check": "no_write_through", "op": opname, "outcome": "write_through"}, "features": dict(feats_base, **extra), "expected": "timestamps buffer unchanged", "actual": "timestamps changed by editing the result"})
             tol = ops.tolerance(op, ds, gen.mask_rows(ds, mask_desc)) if kind != "fn" else 0.0
             unordered = op["op"] in ops.UNORDERED
             ctx2 = new_ctx()
